@@ -92,7 +92,7 @@ def parse_cmap(text):
             raise ValueError("data row before #h line")
         f = line.split("\t")
         rec = dict(zip(cols, f))
-        mid = int(float(rec["CMapId"]))
+        mid = int(rec["CMapId"]) if rec["CMapId"].lstrip("-").isdigit() else int(float(rec["CMapId"]))
         m = mols.setdefault(mid, {"id": mid, "length": None, "pos": [], "has_marker": False})
         ch = int(float(rec["LabelChannel"]))
         p = float(rec["Position"])
